@@ -4,6 +4,8 @@ package p9p
 // Two goroutines each perform one operation on a shared session; the stub file
 // system yields inside every call and monitors overlapping calls per entry.
 
+import "context"
+
 type vMState struct {
 	bound [4]bool // fids 1..3
 	open  [4]bool
@@ -166,3 +168,170 @@ func vC14Pair() {
 }
 
 func VerifC14_Pair() { vC14Pair() }
+
+// ---- three concurrent operations contending for one fid -----------------------
+// A is the operation that makes the fid's table entry come or go (a clone onto
+// the new fid 3 whose walk succeeds or fails, or a clunk/remove of fid 1 or 2);
+// B and C are operations on that same fid, issued at the same time.  Explored
+// delay-bounded (see check spec): every operation must return, the outcome must
+// be that of some sequential order, nothing is left locked.
+func vC14Triple() {
+	fs := &vStubFS{noFail: true, yield: true}
+	sess := SFileSys(fs).(*session)
+	e1 := fs.newEnt(true)
+	sess.refs.Store(Fid(1), &SFid{Ent: e1})
+	e2 := fs.newEnt(false)
+	e2.file = &vStubFile{ent: e2}
+	sess.refs.Store(Fid(2), &SFid{Ent: e2, File: e2.file})
+	var st0 vMState
+	st0.bound[1], st0.bound[2], st0.open[2] = true, true, true
+	var ops [3]vMOp
+	var hot Fid
+	fs.failRelease = map[int]bool{}
+	fs.failClone = map[int]bool{}
+	switch ndChoice("a.kind", 4) {
+	case 0:
+		ops[0] = vMOp{kind: 1, fid: 1, nf: 3}
+		hot = 3
+	case 1:
+		ops[0] = vMOp{kind: 6, fid: 1, nf: 3}
+		fs.failClone[1] = true
+		hot = 3
+	case 2:
+		hot = Fid(1 + ndChoice("a.fid", 2))
+		ops[0] = vMOp{kind: 0, fid: hot, fail: ndChoice("a.fail", 2) == 1}
+	case 3:
+		hot = Fid(1 + ndChoice("a.fid", 2))
+		ops[0] = vMOp{kind: 5, fid: hot, fail: ndChoice("a.fail", 2) == 1}
+	}
+	if ops[0].fail {
+		fs.failRelease[int(hot)] = true
+	}
+	kinds := []int{3, 2, 4, 0} // stat, open, read, clunk
+	ops[1] = vMOp{kind: kinds[ndChoice("b.kind", 4)], fid: hot}
+	ops[2] = vMOp{kind: kinds[ndChoice("c.kind", 4)], fid: hot}
+	if ops[0].fail && (ops[1].kind == 0 || ops[2].kind == 0) {
+		// the stub scripts release failures per fid; a second clunk of the same fid
+		// would inherit A's failure flag
+		ops[1].fail = ops[1].kind == 0
+		ops[2].fail = ops[2].kind == 0
+	}
+	done := make(chan bool, 3)
+	var res [3]bool
+	for i := 0; i < 3; i++ {
+		go func(i int) { res[i] = vMDo(sess, ops[i]); done <- true }(i)
+	}
+	for i := 0; i < 3; i++ {
+		<-done // an operation that never returns is reported as a deadlock
+	}
+	final := vMObserve(sess)
+	perms := [][3]int{{0, 1, 2}, {0, 2, 1}, {1, 0, 2}, {1, 2, 0}, {2, 0, 1}, {2, 1, 0}}
+	okAny := false
+	for _, p := range perms {
+		s := st0
+		ok := true
+		for _, i := range p {
+			var r bool
+			s, r = vMStep(s, ops[i])
+			if r != res[i] {
+				ok = false
+			}
+		}
+		if ok && s == final {
+			okAny = true
+		}
+	}
+	vAssert(okAny, "C14: the results are those of some sequential order of the operations")
+	vAssert(fs.viol == "", "C14: the file system never sees overlapping calls on one fid's entry or file: "+fs.viol)
+	sess.refs.Range(func(k, v interface{}) bool {
+		sf := v.(*SFid)
+		okl := sf.TryLock()
+		vAssert(okl, "C14: no fid is left locked after the operations returned")
+		if okl {
+			sf.Unlock()
+		}
+		return true
+	})
+	vReach("c14.triple")
+}
+
+func VerifC14_Triple() { vC14Triple() }
+
+// ---- auth fids --------------------------------------------------------------
+// A file system that requires authentication: Auth binds an auth fid (an entry
+// of the fid table without a directory entry).  Whatever later operations on
+// that fid return - the property leaves auth files unspecified - each of them
+// must return and must leave no fid locked, and a clunk unbinds it.
+type vAuthFS struct{ vStubFS }
+
+func (fs *vAuthFS) RequireAuth(ctx context.Context) bool { return true }
+func (fs *vAuthFS) Auth(ctx context.Context, uname, aname string) (AuthFile, error) {
+	if ndChoice("auth.fail", 2) == 1 {
+		return nil, errVMock
+	}
+	return &vAuthFile{}, nil
+}
+
+type vAuthFile struct{ closed int }
+
+func (f *vAuthFile) Read(ctx context.Context, p []byte, offset int64) (int, error)  { return 0, nil }
+func (f *vAuthFile) Write(ctx context.Context, p []byte, offset int64) (int, error) { return len(p), nil }
+func (f *vAuthFile) IOUnit() int                                                   { return 0 }
+func (f *vAuthFile) Close(ctx context.Context) error                               { f.closed++; return nil }
+func (f *vAuthFile) Success() bool                                                 { return true }
+
+func VerifC14_AuthFid() {
+	fs := &vAuthFS{}
+	fs.noFail = true
+	sess := SFileSys(fs).(*session)
+	e1 := fs.newEnt(true)
+	sess.refs.Store(Fid(1), &SFid{Ent: e1})
+	afid := Fid(ndU32("afid"))
+	vAssume(afid != 1)
+	_, err := sess.Auth(vBG, afid, "u", "a")
+	unlocked := func() {
+		sess.refs.Range(func(k, v interface{}) bool {
+			sf := v.(*SFid)
+			okl := sf.TryLock()
+			vAssert(okl, "C14: no fid is left locked after an operation returns")
+			if okl {
+				sf.Unlock()
+			}
+			return true
+		})
+	}
+	unlocked()
+	if err != nil {
+		_, held := sess.refs.Load(afid)
+		vAssert(!held, "C14: a failed auth leaves nothing behind in the fid table")
+		return
+	}
+	for k := 0; k < 2; k++ {
+		fid := afid
+		if ndChoice("op.other", 3) == 0 {
+			fid = Fid(ndU32("op.fid"))
+		}
+		switch ndChoice("op", 7) {
+		case 0:
+			sess.Stat(vBG, fid)
+		case 1:
+			sess.Open(vBG, fid, OREAD)
+		case 2:
+			sess.Read(vBG, fid, make([]byte, 1), 0)
+		case 3:
+			sess.Write(vBG, fid, make([]byte, 1), 0)
+		case 4:
+			sess.Walk(vBG, fid, Fid(ndU32("op.newfid")))
+		case 5:
+			sess.Attach(vBG, Fid(ndU32("op.newfid")), fid, "u", "a")
+		case 6:
+			sess.Clunk(vBG, fid)
+			if fid == afid {
+				_, held := sess.refs.Load(afid)
+				vAssert(!held, "C08: clunk always unbinds the fid")
+			}
+		}
+		unlocked() // an operation that never returns is reported as a deadlock
+	}
+	vReach("c14.authfid")
+}
